@@ -331,7 +331,8 @@ CLAIMED = {
              "arguments; every operation sequence, every capacity incl. 0 and negative, every TTL and clock; values of any "
              "type; no bound): the store never exceeds max(0, capacity) entries and holds a key at most once; a hit returns "
              "the value of the latest set of that key with no later set/delete of it and no clear, strictly before its "
-             "deadline (ttl None/0/negative = none); the LRU rank bound after a store and after a hit (an entry is lost to "
+             "deadline (ttl None/0/negative = none); read-your-write, delete-then-miss, clear-then-miss and never-set-never-found "
+             "as corollaries (CacheLaws.v); the LRU rank bound after a store and after a hit (an entry is lost to "
              "capacity only when at least capacity distinct other keys were stored or found since; the count is of distinct "
              "keys), tight; exactly the textbook LRU map when no entry can expire; the store is ordered by last touch; and "
              "linearizability of every concurrent history (any number of threads) under the assumption that each method body "
